@@ -118,6 +118,13 @@ def run(lines, out, args):
         elif kind in (2, 3, 4):
             # lookup entry points: argument forms, defaults, error paths, cache states
             R = VerifyingAdapterRegistry if kind == 3 else AdapterRegistry
+            from zope.interface.adapter import LookupBase
+            lb = LookupBase()
+            # the invalidation entry point in every argument form the reference accepts
+            tr.append(t(lambda: lb.changed()))
+            tr.append(t(lambda: lb.changed(None)))
+            tr.append(t(lambda: lb.changed(ignored=None)))
+            tr.append(t(lambda: lb.changed(1, 2)))
             base = R()
             reg = R((base,))
 
